@@ -351,3 +351,23 @@ contract(TT + ".union", serves=["C05", "C10"], spec_module="spec.tiers",
 contract(IT + ".difference", serves=["C05", "C10"], spec_module="spec.tiers",
          configs={"kind": ["interval"]}, inputs=two_tiers, loops=INV, frame=["self", "tier"],
          ensures=[("well-formed", "well_formed(result)")])
+
+
+# ---- TextgridTier.new(): an independent copy; a requested span is widened to the entries, never kept narrower
+def new_inputs(S, cfg):
+    d = dict(self=wf_interval_tier(S, "self") if cfg["kind"] == "interval" else wf_point_tier(S, "self"))
+    d["name"] = None
+    d["entries"] = None
+    d["minTimestamp"] = S.real("minTimestamp") if cfg["span"] == "sym" else None
+    d["maxTimestamp"] = S.real("maxTimestamp") if cfg["span"] == "sym" else None
+    return d
+
+
+contract(TT + ".new", serves=["C13", "C05"], spec_module="spec.tiers",
+         configs={"kind": ["interval", "point"], "span": ["default", "sym"]},
+         inputs=new_inputs, frame=["self"],
+         requires=["minTimestamp is None or (0 <= minTimestamp and minTimestamp <= maxTimestamp and maxTimestamp <= 1e15)"],
+         ensures=[("same-entries", "result.entries == self.entries and result.name == self.name"),
+                  ("independent", "result is not self and result._entries is not self._entries"),
+                  # a requested span that is narrower than the entries is widened, never kept
+                  ("well-formed", "well_formed(result)")])
